@@ -99,7 +99,8 @@ CHECKS = {
              'assertions never change the table; after argv parsing exactly the named kinds regenerate; a '
              'regenerated string/text/binary reference passes its own assertion (via the C04 theorems). Histories '
              'of real assertions on a sandbox directory are compared step by step with the extracted model, and a '
-             'step oracle checks the property itself (including DataFrame/parquet assertions).',
+             'step oracle checks the property itself (including DataFrame/parquet assertions, relative reference names with per-object, '
+             'per-kind and class-default data locations, and the pytest front end: --write KINDS / --write-all through the ref fixture).',
         note='DataFrame assertions (parquet round trip) are outside the model: oracle only. File-system and '
              'encoding behaviour is observed, not modelled.',
         technique='Coq proof (invariants over step, regen_then_passes via C04 refl/splitlines lemmas) + '
@@ -226,7 +227,9 @@ CHECKS = {
              'the global state after the call equals the state before it and the states samples are drawn from depend on the '
              'seed only. The model predicts the exact getstate/seed/sample/setstate call sequence of every real run and '
              'replays every run; reordering, list-vs-dictionary, repeated calls, repeated examples, seeded reproducibility '
-             '(forced sampling and >4000-string inputs) and the generator state are also checked directly.',
+             '(forced sampling and >4000-string inputs) and the generator state are also checked directly, as are the other ways in: '
+             'encoded examples (extract(..., encoding=)), rexpy_streams on the caller\'s own list, Series, and calls that share one '
+             'caller-owned Size object.',
         note='partial: under sampling (more distinct strings than do_all_exceptions, or small Size settings) the sample '
              'drawn depends on the stored order, so only seeded reproducibility and the generator protocol are claimed there; '
              'the regex memo is not modelled (repeat-call checks are run-time); random is CPython\'s.',
